@@ -15,7 +15,8 @@ def sel(T):
     if T.kind == 'publish':
         return [O.c01_publish]
     if T.kind in ('seek', 'create-snapshot'):
-        return [O.resolves_only_live] + ([O.c13_seek_time] if T.name == 'seek-to-time' else [])
+        # a seek revives with fresh *retention* (message_ttl), not the subscription's expiration ttl
+        return [O.resolves_only_live] + ([O.c13_seek_time] if T.name in ('seek-to-time', 'grpc:Seek(time)') else []) + ([O.c13_seek_snapshot] if T.name in ('seek-to-snapshot', 'grpc:Seek(snapshot)') else [])
     return []
 
 
